@@ -179,7 +179,7 @@ func scCookie(r *Run) {
 			continue
 		}
 		ackKey, ackFrom := kp, from
-		variant := r.Intn("ack", 9)
+		variant := r.Intn("ack", 10)
 		name := certs.DNSName("server.sim")
 		what := "control: same key, same address"
 		switch variant {
@@ -196,6 +196,15 @@ func scCookie(r *Run) {
 		case 4:
 			what = "after cookie key rotation"
 			time.Sleep(2*time.Minute + time.Duration(1+r.Intn("ack", 100))*time.Second)
+		case 9:
+			// the same, on a server that is never quiet: other clients' hellos keep arriving, closer together than
+			// the handshake timeout, all the time until the old cookie is presented
+			what = "after cookie key rotation on a busy server"
+			until := r.Now() + 2*time.Minute + time.Duration(1+r.Intn("ack", 200))*time.Second
+			for r.Now() < until {
+				n.Inject(drawAddr(r, "busy"), srvAddr, hello(atkKeys[r.Intn("busy", 3)]), 0, "hello-meanwhile")
+				time.Sleep(time.Duration(200+r.Intn("busy", 2500)) * time.Millisecond)
+			}
 		case 5, 6:
 			what = "after server restart"
 			srv.Close()
